@@ -85,7 +85,7 @@ func (c13) Gen(r *Rand, idx int, tier string) interface{} {
 	p.Kind = Pick(r, []string{"cancel", "cancel", "closed-calls", "conn-close", "close-queue", "close-queue", "close-send", "close-recv", "close-errqueue", "cancel-send"})
 	p.FlushFull = r.Pct(40)
 	p.Logical = r.Pct(40)
-	p.QueueSize = Pick(r, []int{1, 2, 3, 5, 100})
+	p.QueueSize = Pick(r, []int{0, 1, 2, 3, 5, 100})
 	p.NPkgs = r.Intn(p.QueueSize + 4)
 	if p.QueueSize == 100 {
 		p.NPkgs = r.Intn(8)
